@@ -65,17 +65,27 @@ def expNegMax (tmax : Option α) (tau : α) : α :=
   | none => 0.0
   | some m => RealLike.exp ((-m) / tau)
 
-/-- continuous model: one summand of the log normalisation, `log a + log(e^{-tmin/τ} − e^{-tmax/τ})` -/
+/-- `np.log1p(-np.exp(-w / lifetimes))` for a window of width `w`; `w = inf` (`none`) gives `log1p(-0) = 0`
+    (`log1p(-x)` is written `log(1 − x)`: the same real function) -/
+def logWindow (width : Option α) (tau : α) : α :=
+  match width with
+  | none => 0.0
+  | some w => RealLike.log (1.0 - RealLike.exp ((-w) / tau))
+
+/-- continuous model: one summand of the log normalisation, in the factored form the code uses since the repair of
+    F13: `log a + (−tmin/τ + log1p(−e^{−(tmax − tmin)/τ}))` — the window probability `e^{−tmin/τ} − e^{−tmax/τ}` with
+    `e^{−tmin/τ}` pulled out of the logarithm, so that it cannot underflow to `log 0` -/
 def normTermCont (tmin : α) (tmax : Option α) (c : Comp α) : α :=
-  RealLike.log c.amp + RealLike.log (RealLike.exp ((-tmin) / c.tau) - expNegMax tmax c.tau)
+  RealLike.log c.amp + ((-tmin) / c.tau + logWindow (tmax.map fun m => m - tmin) c.tau)
 
 /-- `1 − exp(−Δ/τ)` -/
 def discFactor (step tau : α) : α := 1.0 - RealLike.exp ((-step) / tau)
 
-/-- discretised model: one summand of the log normalisation -/
+/-- discretised model: one summand of the log normalisation,
+    `log a + log τ + (−(tmin − Δ)/τ + log1p(−e^{−(tmax − tmin + Δ)/τ})) + log(1 − e^{−Δ/τ})` -/
 def normTermDisc (tmin : α) (tmax : Option α) (step : α) (c : Comp α) : α :=
   RealLike.log c.amp + RealLike.log c.tau
-    + RealLike.log (RealLike.exp ((-(tmin - step)) / c.tau) - expNegMax tmax c.tau)
+    + ((-(tmin - step)) / c.tau + logWindow (tmax.map fun m => m - tmin + step) c.tau)
     + RealLike.log (discFactor step c.tau)
 
 /-- `_exponential_mixture_log_likelihood_components` for one observation: one log-term per component -/
